@@ -256,6 +256,10 @@ def machine_run(cmds, stacks, max_steps, stdin=""):
 
 def cases_for(op, seed):
     """yield (line, expected, pretty input)"""
+    if op == "exit.pop":
+        yield ("exit.pop\t1", "status=0 out=A err=B", {"op": "write 'A'/'B' to stacks 1/2, then pop stack 1 (child process)"})
+        yield ("exit.pop\t2", "status=1 out=A err=B", {"op": "write 'A'/'B' to stacks 1/2, then pop stack 2 (child process)"})
+        return
     if op == "stdin.cat":
         texts = ["", "a", "a\r\nb", "\r\n\r", "ab\ncd", "ab\ncd\n", "\n\nx", "é가\U0001F496\n\U0010FFFF", "\x00\x7f\u0080\u07ff\u0800\ud7ff\ue000\uffff\U00010000", "x" * 300 + "\ny"]
         for t in texts:
@@ -496,7 +500,7 @@ OPS = {
     "calc": ["area.calc"], "Area::new": ["area.calc"],
     "opt_execute": ["opt.cmp"], "calc_on_state_opt": ["opt.cmp"],
     "execute_one": ["exec.steps"], "calc_on_state": ["exec.steps", "area.calc"], "push_stack_wrap": ["exec.steps"],
-    "pop_stack_wrap": ["exec.steps", "stdin.cat"], "ReadLine_for_std::io::Stdin::read_line_": ["stdin.cat"], "io_read_line_from": ["stdin.cat"], "State::push_stack": ["exec.steps"], "State::pop_stack": ["exec.steps"],
+    "pop_stack_wrap": ["exec.steps", "stdin.cat", "exit.pop"], "ReadLine_for_std::io::Stdin::read_line_": ["stdin.cat"], "io_read_line_from": ["stdin.cat"], "State::push_stack": ["exec.steps"], "State::pop_stack": ["exec.steps"],
     "trait_State::push_stack": ["exec.steps"], "trait_State::pop_stack": ["exec.steps"], "ext_num_to_unicode": [],
     "BigNum::to_string_base": ["big.to_base", "big.roundtrip"], "BigNum::from_string_base": ["big.from_base", "big.roundtrip"],
     "BigNum::from_string": ["big.from_string", "big.from_base"], "Num::from_string": ["num.roundtrip"],
@@ -509,7 +513,7 @@ PROP_OPS = {
             "num.is_nan", "num.eq"],
     "C07": ["num.cmp", "area.calc", "big.eq", "big.cmp"],
     "C09": ["big.roundtrip", "big.to_base", "big.from_base", "big.from_string", "num.roundtrip"],
-    "C01": ["exec.steps", "area.calc", "num.cmp"],
+    "C01": ["exec.steps", "exit.pop", "area.calc", "num.cmp"],
     "C02": ["opt.cmp"], "C10": [], "C14": ["stdin.cat", "exec.steps"],
 }
 
